@@ -118,7 +118,7 @@ func zzC02CustomSpecValidOrRefused() {
 //verif:stub (*math/rand.Rand).Shuffle zzStubShuffleIdentity
 //verif:expect sent
 //verif:assume the seeded PRNG stream is arbitrary (every coin an SMT variable), permutations are the identity (C09's stubs)
-//verif:doc The three randomized ClientHelloIDs with a symbolic seed and the default weights, every structural coin arbitrary; the eight coins that only add an independent extension or signature algorithm are tied to one bit (thorough: two bits): UClient + BuildHandshakeState succeed and Hello.Raw passes the strict ClientHello grammar and every per-extension body grammar.
+//verif:doc The three randomized ClientHelloIDs with a symbolic seed, Config.NextProtos nil / empty / {h2} and the default weights, every structural coin arbitrary; the eight coins that only add an independent extension or signature algorithm are tied to one bit (thorough: two bits): UClient + BuildHandshakeState succeed and Hello.Raw passes the strict ClientHello grammar and every per-extension body grammar.
 func zzC02RandomizedSpecHelloValid() {
 	zzPrngs, zzPrngStreams = nil, nil
 	var seed PRNGSeed
@@ -142,6 +142,12 @@ func zzC02RandomizedSpecHelloValid() {
 	clients := []string{helloRandomized, helloRandomizedALPN, helloRandomizedNoALPN}
 	id := ClientHelloID{Client: clients[verifChoice("variant", 3)], Version: helloAutoVers, Seed: &seed, Weights: &w}
 	cfg := zzConfig("example.com")
+	switch verifChoice("caller-nextprotos", 3) {
+	case 1:
+		cfg.NextProtos = []string{} // empty but not nil
+	case 2:
+		cfg.NextProtos = []string{"h2"}
+	}
 	uc := UClient(&zzRecConn{}, cfg, id)
 	err := uc.BuildHandshakeState()
 	verifAssert(err == nil, "randomized-hello-builds")
